@@ -11,10 +11,15 @@ import (
 
 	"github.com/whawty/auth/internal/verifev"
 	"github.com/whawty/auth/internal/verifx"
+	"github.com/whawty/auth/store"
 )
 
 func main() {
-	ev := verifev.New("C15", "aux")
+	as := os.Getenv("VERIF_AS")
+	if as == "" {
+		as = "C15"
+	}
+	ev := verifev.New(as, "aux")
 	big := strings.Repeat("Z", 200*1024)
 	auxes := map[string]string{
 		"none":             "",
@@ -30,7 +35,26 @@ func main() {
 		"just-over-4k":     strings.Repeat("q", 4097),
 		"exactly-4096":     strings.Repeat("q", 4095) + "\n",
 	}
-	ops := []string{"update", "setadmin-true", "setadmin-false", "setadmin-noop", "update-other-user", "remove-other-user", "add-other-user"}
+	ops := []string{"upgrade", "update", "setadmin-true", "setadmin-false", "setadmin-noop", "update-other-user", "remove-other-user", "add-other-user"}
+	if as == "C12" {
+		ops = []string{"upgrade"}
+	}
+	// parameter sets 8 and 9 make the record line itself longer than 4 KiB / 64 KiB
+	mkdir := func(dir string, def uint) *store.Dir {
+		d := verifx.CheapDir(dir, def)
+		h8, err8 := store.NewArgon2IDHasher(&store.Argon2IDParams{Time: 1, Memory: 8, Threads: 1, Length: 3100})
+		h9, err9 := store.NewArgon2IDHasher(&store.Argon2IDParams{Time: 1, Memory: 8, Threads: 1, Length: 70000})
+		must(err8)
+		must(err9)
+		d.Params[8], d.Params[9] = h8, h9
+		return d
+	}
+	other := func(set uint) uint {
+		if set == 1 {
+			return 2
+		}
+		return 1
+	}
 	root := verifx.Scratch("c15")
 	defer os.RemoveAll(root)
 	type job struct {
@@ -41,7 +65,7 @@ func main() {
 	var jobs []job
 	for an := range auxes {
 		for _, op := range ops {
-			for _, set := range []uint{1, 2} {
+			for _, set := range []uint{1, 2, 8, 9} {
 				for _, adm := range []bool{false, true} {
 					jobs = append(jobs, job{an, op, set, adm})
 				}
@@ -53,7 +77,7 @@ func main() {
 		dir := filepath.Join(root, fmt.Sprintf("w%d", w))
 		os.RemoveAll(dir)
 		os.MkdirAll(dir, 0700) //nolint:errcheck
-		d := verifx.CheapDir(dir, j.set)
+		d := mkdir(dir, j.set)
 		must(d.AddUser("root", "rootpw", true))
 		must(d.AddUser("t", "tpw", j.admin))
 		must(d.AddUser("o", "opw", false))
@@ -68,12 +92,21 @@ func main() {
 		ob, _ := os.ReadFile(of)
 		must(os.WriteFile(of, append(ob, "o-aux\n"...), 0600))
 		before := verifx.Snap(dir)
+		ev.Add("evaluations", 1)
 		origFirst, _, _ := strings.Cut(string(b), "\n")
 		var err error
 		newExt := ext
 		switch j.op {
+		case "upgrade":
+			// what the agent does after a successful login with an upgradeable hash: the same
+			// password is written again under the (now different) default parameter set
+			du := mkdir(dir, other(j.set))
+			if ok, _, upg, _, aerr := du.Authenticate("t", "tpw"); !ok || !upg {
+				viol0(ev, j.aux, j.op, j.set, j.admin, "not-upgradeable", fmt.Sprintf("record of set %d under default %d: ok=%v upgradeable=%v err=%v", j.set, other(j.set), ok, upg, aerr))
+			}
+			err = du.UpdateUser("t", "tpw")
 		case "update":
-			err = verifx.CheapDir(dir, 3-j.set).UpdateUser("t", "newpw") // under the other default
+			err = mkdir(dir, other(j.set)).UpdateUser("t", "newpw") // under the other default
 		case "setadmin-true":
 			err = d.SetAdmin("t", true)
 			newExt = ".admin"
@@ -89,7 +122,6 @@ func main() {
 		case "add-other-user":
 			err = d.AddUser("n", "npw", false)
 		}
-		ev.Add("evaluations", 1)
 		viol := func(kind, format string, a ...any) {
 			ev.Violation(kind+":"+j.op, fmt.Sprintf("[aux %s, op %s, set %d, admin %v] ", j.aux, j.op, j.set, j.admin)+fmt.Sprintf(format, a...), map[string]any{"aux": j.aux, "op": j.op, "set": j.set, "admin": j.admin})
 		}
@@ -107,8 +139,20 @@ func main() {
 		if rest != auxes[j.aux] {
 			viol("aux-changed", "auxiliary data changed: %d bytes before, %d after (first difference near byte %d)", len(auxes[j.aux]), len(rest), firstDiff(rest, auxes[j.aux]))
 		}
-		if j.op != "update" && first != origFirst {
+		if j.op != "update" && j.op != "upgrade" && first != origFirst {
 			viol("record-changed", "record line (incl. timestamp) changed by %s", j.op)
+		}
+		if j.op == "upgrade" {
+			du := mkdir(dir, other(j.set))
+			if ok, adm, upg, _, _ := du.Authenticate("t", "tpw"); !ok || adm != j.admin || upg {
+				viol("upgrade-effect", "after the upgrade: same password ok=%v admin=%v (want %v) still upgradeable=%v", ok, adm, j.admin, upg)
+			}
+			if ok, _, _, _, _ := du.Authenticate("t", "newpw"); ok {
+				viol("upgrade-effect", "after the upgrade another password is accepted")
+			}
+			if !strings.HasPrefix(first, verifx.FormatOfSet(other(j.set))+":") || first == origFirst {
+				viol("upgrade-effect", "record line after the upgrade is %.40q (before %.40q)", first, origFirst)
+			}
 		}
 		if j.op == "update" {
 			if ok, adm, _, _, _ := d.Authenticate("t", "newpw"); !ok || adm != j.admin {
@@ -146,8 +190,12 @@ func main() {
 			ev.Sample(map[string]any{"aux": j.aux, "op": j.op, "set": j.set, "admin": j.admin, "aux_bytes": len(auxes[j.aux])})
 		}
 	})
-	ev.Rule = fmt.Sprintf("%d auxiliary-data shapes (none, 1/3 lines, no final newline, CRLF, binary with NUL, blank lines, record-like lines, one 200 KiB line with/without newline, 4096/4097 bytes) x %d operations x 2 defaults x user/admin on a 3-user store; byte comparison of the target's auxiliary data, its record line (set-admin) and all other files", len(auxes), len(ops))
+	ev.Rule = fmt.Sprintf("%d auxiliary-data shapes (none, 1/3 lines, no final newline, CRLF, binary with NUL, blank lines, record-like lines, one 200 KiB line with/without newline, 4096/4097 bytes) x %d operations x 4 parameter sets (two cheap ones, record lines of >4 KiB and >64 KiB) x user/admin on a 3-user store; operation upgrade = same password re-written under another default, as the agent does after a login with an upgradeable hash; byte comparison of the target's auxiliary data, its record line (set-admin) and all other files", len(auxes), len(ops))
 	ev.Finish()
+}
+
+func viol0(ev *verifev.Run, aux, op string, set uint, admin bool, kind, msg string) {
+	ev.Violation(kind+":"+op, fmt.Sprintf("[aux %s, op %s, set %d, admin %v] %s", aux, op, set, admin, msg), map[string]any{"aux": aux, "op": op, "set": set, "admin": admin})
 }
 
 func firstDiff(a, b string) int {
